@@ -370,3 +370,11 @@ MANIFEST_ENTRY = dict(
     note='Bounded layout sizes (tier B); "arrays can be built and planned on" is run-time evidence plus the C06/C01 contracts.',
 )
 END_MANIFEST_ENTRY = True
+
+
+SENTINELS = globals().get('SENTINELS', []) + [
+    Sentinel('gridworld-slip-mass-swapped', 'msdm.domains.gridworld.mdp', '                s: 1 - self.success_prob,\n                ns: self.success_prob\n',
+             '                s: self.success_prob,\n                ns: 1 - self.success_prob\n', ['re:^gridworld/.*/batch0']),
+    Sentinel('tiger-coherence-swapped', 'msdm.domains.tiger', '            pleft = self.coherence\n',
+             '            pleft = 1 - self.coherence\n', ['re:^tiger/']),
+]
